@@ -348,7 +348,7 @@ func without(m []int, sub ...int) []int {
 // them are valid (the cases that are re-run under chosen seed tapes).
 func (c *bcase) correlated() bool {
 	switch c.kind {
-	case "swapped-pair", "cancelling-pair", "cancelling-triple", "other-signer(rotation-inside-subset)":
+	case "swapped-pair", "cancelling-pair", "cancelling-torsion-pair", "cancelling-triple", "other-signer(rotation-inside-subset)":
 		return true
 	}
 	return false
@@ -414,6 +414,14 @@ func buildCases(n int) []*bcase {
 					c.sub = []int{i, j}
 					c.sigs[i] = enc(validPt[i].Add(d1))
 					c.sigs[j] = enc(validPt[j].Add(d1.Neg()))
+					fill(c, rest, f)
+					out = append(out, c)
+					// the same with an offset OUTSIDE G1: each entry alone fails the membership test,
+					// their sum does not (a membership test on a combination of entries is fooled)
+					c = newCase(n, "cancelling-torsion-pair", S)
+					c.sub = []int{i, j}
+					c.sigs[i] = enc(validPt[i].Add(t3))
+					c.sigs[j] = enc(validPt[j].Add(t3.Neg()))
 					fill(c, rest, f)
 					out = append(out, c)
 				}
